@@ -176,6 +176,7 @@ let dispatch (fn : string) (args : sx list) : sx =
   | "split_ell", [s] -> of_list of_str (split_ell (to_str s))
   | "ellipsis_match", [g; w] -> of_bool (ellipsis_match (to_str g) (to_str w))
   | "std_ellipsis_match", [w; g] -> of_bool (std_ellipsis_match (to_str w) (to_str g))
+  | "populate_from_cli", [opts] -> of_dict (populate_from_cli (to_list (to_pair to_str to_bool) opts))
   | "extract_inline", [t] -> of_bool (extract_inline (to_str t))
   | "extract_inline_before_F31", [t] -> of_bool (extract_inline_before_F31 (to_str t))
   | "std_check_output", [e; n; w; g] -> of_bool (std_check_output (to_bool e) (to_bool n) (to_str w) (to_str g))
